@@ -98,6 +98,11 @@ fn find_and_play_best_move(
             Err(_) => thread::sleep(Duration::from_millis(1)),
         }
     }
+    // the search may have sent better moves since we last looked (we can wake up well after the
+    // deadline), the move to play is the last one it sent
+    while let Ok(b) = rx.try_recv() {
+        best_move = Some(b);
+    }
     let board = best_move.unwrap();
     send_best_move_to_gui(&board);
     info!("{}", board.simple_board());
